@@ -391,6 +391,12 @@ func runC02(c *Ctx) {
 			p.Job = uint16(100 + gi) // distinct jobs: the groups are independent packets
 			if gi == 0 && r.Chance(25) {
 				p.Job = 0 // a packet queued without a Job number (Session.Write of a user packet)
+				if r.Bool() {
+					// ... relayed for a proxied client (Proxy.talk sets the flag before parent.write): neither
+					// write nor verifyPacket gives such a packet a Job, so all of its fragments keep Job 0
+					p.Flags |= com.FlagProxy
+					c.Count("senddrop:proxied-job0")
+				}
 			}
 			if gi == 1 && r.Chance(20) {
 				p.Job = 1 // the smallest Job number there is
